@@ -1,7 +1,8 @@
 package v2
 
 var zzRegistry = map[string]func(int){
-	"ZZ_C18": ZZ_C18,
+	"ZZ_C18":     ZZ_C18,
 	"ZZ_C09Bulk": ZZ_C09Bulk,
+	"ZZ_C09Http": ZZ_C09Http,
 	"ZZ_C14Flag": ZZ_C14Flag,
 }
